@@ -159,6 +159,16 @@ func init() {
 				prof := spelled(false)
 				on, off := V5Opts{NegIdx: true, EscapeHTML: true}, V5Opts{NegIdx: true, EscapeHTML: false}
 				cfg := &SeqCfg{Prof: prof, MinOps: 0, MaxOps: 8, MissRate: 3, RootOK: true}
+				if idx%3 == 0 {
+					// containers created by EnsurePathExistsOnAdd (and what later operations put into them)
+					// are spelled under the same option as everything else
+					on.EnsurePath, off.EnsurePath = true, true
+					on.AllowMissing, off.AllowMissing = idx%2 == 0, idx%2 == 0
+					cfg.MissRate = 40
+					cfg.MinOps = 1
+					cfg.Kinds = []string{"add", "add", "add", "add", "copy", "move", "replace", "test", "remove"}
+					c.Count("escape-off:ensure-path-cases")
+				}
 				sc := GenSeq(c.R, cfg, off.Ref())
 				rOff := ApplyV5(sc.DocText, sc.Patch(), off, "")
 				rOn := ApplyV5(sc.DocText, sc.Patch(), on, "")
